@@ -111,7 +111,7 @@ type PL struct {
 	Timeouts   bool
 	Close      bool     // ChanCloseInit on B + TimeoutOnClose
 	CrossProto bool     // cross-protocol forgeries (v1 packet relayed as v2 and vice versa)
-	DataKinds  []string // payload kinds to send: "ok", "fail", "async"
+	DataKinds  []string // payload kinds to send: "ok", "fail", "async"; v1 only: "wok", "wasync", "wfail" (application writes the ack inside the receive callback)
 	AsyncAck   bool     // application-level asynchronous acknowledgement writes (also premature / repeated)
 	Reverse    int      // number of packets B may send back to A on the ordered channel (C14)
 	Sync       bool     // macro step: commit(X) immediately followed by the honest client update on the other chain (replaces commit/update ops)
@@ -181,6 +181,12 @@ func dataFor(kind string) []byte {
 		return ibcmock.MockFailPacketData
 	case "async":
 		return ibcmock.MockAsyncPacketData
+	case "wok":
+		return []byte(ksim.WriteInRecvOK)
+	case "wasync":
+		return []byte(ksim.WriteInRecvAsync)
+	case "wfail":
+		return []byte(ksim.WriteInRecvFail)
 	}
 	return ibcmock.MockPacketData
 }
